@@ -6,6 +6,9 @@ import Sonic.Proofs.NumberAnchor
 import Sonic.Proofs.NumberValue
 import Sonic.Proofs.NumberELMain
 import Sonic.Proofs.NumberELPath
+import Sonic.Proofs.NumberNormalFast
+import Sonic.Proofs.NumberNormalFastPath
+import Sonic.Proofs.DecTake
 
 /-!
 # C04 — numbers parse to the exact integer or the correctly rounded double
@@ -26,11 +29,19 @@ Proved here, for **all** buffers / numbers (no bound on digit counts or exponent
 * `C04_el_path_correct`  end-to-end: every answer of `parseNumber` through Eisel-Lemire (`el`, and `el2` = the
                       `man` / `man+1` retry for truncated mantissas) is the value the reference demands;
 * `C04_el_correct`    Eisel-Lemire: `atofEiselLemire64 m e neg = some b → Rne.round neg m e = some b` for every non-zero
-                      64-bit mantissa (what `convert` / `parseFloatEiselLemire64` pass), all exponents, both signs.
+                      64-bit mantissa (what `convert` / `parseFloatEiselLemire64` pass), all exponents, both signs;
+* `C04_normalfast_correct`  whenever `ParseFloatingNormalFast` (yyjson's fast path) returns true under the caller's guards
+  (`man ≠ 0`, no truncation, `-307 < exp10 < 288`), its result is the correctly rounded double;
+  `C04_normalfast_path_correct` is the end-to-end form (`parseNumber ... = .ok v n .normalfast → scanNumber ... = .ok v n`);
+* `C04_decimal_correct`, `C04_decimal_shift_exact`, `C04_native_path_correct`  the big-decimal fallback `AtofNative`
+  (800-digit `Decimal`, `LeftShift`/`RightShift` with `LSHIFT_TAB`, `RoundedInteger`, `DecimalToF64`) returns the
+  correctly rounded double for texts of any length and never faults; known finding: `C04_native_guard_needed`.
 
-OPEN (not stated as theorems; validated per input by the driver's `spec=` column against `Spec.Number.scanNumber`):
-* `C04_normalfast_correct` `parseFloatingNormalFast e m neg = some b → b = Rne.round neg m e` (`m ≠ 0`, `-307 < e < 288`)
-* `C04_decimal_correct`    `atofNative txt` is the correctly rounded value of the decimal text (and never faults).
+Nothing of the conversion pipeline remains open: every path of `convert` (exact fast path, normal-fast, Eisel-Lemire with the
+`man`/`man+1` retry, big-decimal fallback) is proved against `Spec.Rne.round`.  One guard is needed and is a genuine observation
+about the code (`C04_native_guard_needed`): `AtofNative` is handed the REST OF THE BUFFER, and `SetDecimal` accepts a second `.`;
+so for a token with a fraction and no exponent that is directly followed by `.` (a text that is invalid JSON anyway and is rejected
+right afterwards) the double handed to the SAX handler is not the token's value.
 Known finding F6 (written exponents of 100000 and more saturate the `int exp` accumulator) is outside the guard
 `(expVal t.exp).natAbs < 100000` of `C04_accumulate`.
 -/
@@ -325,6 +336,82 @@ example : Rne.round false 1844674407370955161 1 = some 4895412794951729152 ∧
     Rne.round false 18446744073709551616 0 = some 4895412794951729152 := by decide +kernel
 
 
+/-! ## `ParseFloatingNormalFast` (yyjson's 128/192-bit fast path) -/
+
+/-- **`ParseFloatingNormalFast` is correct.**  `Parser::parseNumber` calls it (see `Model.Number.convert`) only when
+    `man ≠ 0` (a `uint64_t`, so `man < 2^64`), the mantissa was not truncated (so `man·10^exp10` *is* the decimal) and
+    `exp10 > -308 + 1`, `exp10 < 308 - 20`.  Under exactly these guards, whenever the function returns true the bit
+    pattern it stores (sign included) is the correctly rounded binary64 of `±man·10^exp10`.
+    Content of the proof (`Proofs/NumberNormalFast.lean`): with `sig1 = man << clz(man)` and `v` the 128-bit table row
+    (`C04_tables`: `v = ⌊10^e·2^s⌋`, top bit set), the exact scaled value lies in `[sig1·v, sig1·v + sig1)`; the one-word
+    product is accepted only if the low 9 bits of `hi` are in `[1, 510]`, the two-word product only if the middle word
+    `add ∉ {0, 2^64-1}`; in both cases bits 9.. of the accepted `hi` are those of the exact value and the bits below
+    are not all zero, so rounding at bit 10 (after the optional 1-bit normalisation, with the mantissa-overflow carry)
+    is round-to-nearest with no tie; `-307 < exp10 < 288` keeps the biased exponent in `[6, 2041]`, so the `int32`
+    exponent arithmetic and the final shift do not wrap.
+    (`Proofs/NumberNormalFastEq.lean` first rewrites the model into a matcher-free form, `nf_eq`.) -/
+theorem C04_normalfast_correct (m : Nat) (e : Int) (neg : Bool) (b : Nat) (hm : 0 < m) (hm' : m < 2 ^ 64)
+    (he : -307 < e) (he' : e < 288)
+    (h : Sonic.Model.NormalFast.parseFloatingNormalFast e m neg = some b) :
+    Sonic.Spec.Rne.round neg m e = some b :=
+  Sonic.Proofs.NormalFast.normalfast_correct C04_tables.1.2.2 m e neg b hm hm' he he' h
+
+-- non-vacuity: the extreme exponents and mantissas the caller can pass; the mantissa-overflow carry of the rounding
+-- (115292150460684697e1 = 2^60 - 6 → 2^60); the two-word product with a carry into `hi`; an exact tie is refused
+example : Sonic.Model.NormalFast.parseFloatingNormalFast (-306) 1 true = some 9252215105407481745 ∧
+    Rne.round true 1 (-306) = some 9252215105407481745 := by decide +kernel
+example : Sonic.Model.NormalFast.parseFloatingNormalFast 287 18446744073709551615 false = some 9188754901139275218 ∧
+    Rne.round false 18446744073709551615 287 = some 9188754901139275218 := by decide +kernel
+example : Sonic.Model.NormalFast.parseFloatingNormalFast 1 115292150460684697 false = some 4877398396442247168 ∧
+    Rne.round false 115292150460684697 1 = some 4877398396442247168 := by decide +kernel
+example : Sonic.Model.NormalFast.parseFloatingNormalFast 30 9007199254743080 false = some 5294331389890564953 ∧
+    Rne.round false 9007199254743080 30 = some 5294331389890564953 := by decide +kernel
+example : Sonic.Model.NormalFast.parseFloatingNormalFast 0 9007199254740993 false = none := by decide +kernel
+
+
+/-- **End-to-end for the `ParseFloatingNormalFast` path**: whenever `parseNumber` answers through that path (for a
+    token whose written exponent is below 100000 in magnitude), the stored double is the one the reference demands.
+    (The guard `!trunc` makes `man·10^exp10` the exact decimal of the text: `C04_accumulate`.) -/
+theorem C04_normalfast_path_correct (buf : List Nat) (len start : Nat) (t : Token) (v : JNum) (n : Nat)
+    (ht : scanToken (buf.drop start) = some t) (hexp : (expVal t.exp).natAbs < 100000)
+    (h : parseNumber buf len start = .ok v n .normalfast) :
+    scanNumber buf start = .ok v n := by
+  unfold parseNumber at h
+  rcases (accumulate_spec buf start).2 t ht with ⟨_, _, ha⟩ | ⟨_, _, ha⟩ | ⟨hn, f, ha, hg⟩
+  · rw [ha] at h; cases h
+  · rw [ha] at h; cases h
+  · rw [ha] at h
+    obtain ⟨hm0, htrunc, he1, he2, raw, hraw, hv, hnx⟩ := convert_normalfast f _ v n h
+    obtain ⟨hnext, hneg, hman, _, k, hk, _, _, htr⟩ := C04_accumulate buf start t f ht ha hexp
+    obtain ⟨_, hmant, hexp10⟩ := htr htrunc
+    have hr := C04_normalfast_correct f.man f.exp10 f.neg raw (by omega)
+      (Nat.lt_trans hman (by decide)) (by omega) (by omega) hraw
+    rw [hneg, hmant, hexp10] at hr
+    have hval : t.value = some v := by
+      unfold Token.value
+      have hnn : ¬ (t.isInteger = true ∧ t.mantissa < 2 ^ 64) := hn
+      by_cases hi : t.isInteger = true
+      · have hbig : ¬ (t.mantissa < 2 ^ 64) := fun hh => hnn ⟨hi, hh⟩
+        have h0 : t.mantissa ≠ 0 := by
+          intro h0; rw [h0] at hbig; exact hbig (Nat.pow_pos (by omega))
+        have h63 : ¬ (t.mantissa ≤ 2 ^ 63) := by
+          intro h63; exact hbig (Nat.lt_of_le_of_lt h63 (by decide))
+        simp only [hi, Bool.true_and, Bool.and_eq_true, decide_eq_true_eq, hbig, and_false, if_false, h0, h63]
+        rw [hr, hv]; rfl
+      · have hi' : t.isInteger = false := by simpa using hi
+        simp only [hi', Bool.false_and, Bool.false_eq_true, if_false]
+        rw [hr, hv]; rfl
+    unfold scanNumber
+    rw [ht]
+    simp only [hval, hnx, hnext]
+
+-- non-vacuity: 1.2345678901234567e-5 (17 digits: not the exact fast path) goes through `ParseFloatingNormalFast`
+example : parseNumber [49,46,50,51,52,53,54,55,56,57,48,49,50,51,52,53,54,55,101,45,53,120] 21 0
+    = .ok (.real 4533405228038781114) 21 .normalfast ∧
+    scanNumber [49,46,50,51,52,53,54,55,56,57,48,49,50,51,52,53,54,55,101,45,53,120] 0
+    = .ok (.real 4533405228038781114) 21 := by decide +kernel
+
+
 /-! ## anchor of the oracle -/
 
 /-- **Anchor: `Spec.Rne.round` is round-to-nearest, ties-to-even.**  If `Rne.round false m e = some b` then `b` is a
@@ -437,5 +524,90 @@ example : parseNumber [49,46,55,57,55,54,57,51,49,51,52,56,54,50,51,49,53,55,101
     = .ok (.real 9218868437227405311) 22 .el := by decide +kernel
 example : parseNumber [49,50,51,52,53,54,55,56,57,48,49,50,51,52,53,54,55,56,57,48,49,101,51,48,120] 24 0
     = .ok (.real 5356220585486068589) 24 .el2 := by decide +kernel
+
+/-! ## the big-decimal fallback `AtofNative` -/
+
+open Sonic.Proofs.Dec (nativeGuard specBits StepQ val WF Dnat Trimmed)
+open Sonic.Model.BigDecimal (atofNative rightShift leftShift)
+
+/-- **The big-decimal fallback is correct.**  Let `txt` be the bytes handed to `AtofNative` (the real parser passes
+    the rest of the buffer, `len_ - pos_ + 1` bytes from the start of the number), let the reference scanner find the
+    token `t` at its start, with a written exponent below 100000 in magnitude (beyond: known finding F6), and let the
+    byte after the token satisfy `nativeGuard` (not `.` after a fraction without exponent part, not a digit after a
+    lone `0`; see `C04_native_guard_needed`).  Then, for texts of **any length** (more than 800 significant digits
+    included: the dropped digits only enter through `trunc`, and flooring to 800 digits at every shift never crosses
+    a double or a midpoint between two doubles):
+    the result is the bit pattern of the correctly rounded binary64 of the exact decimal `±mantissa·10^exponent` —
+    `Spec.Rne.round`, with `±inf` (`0x7FF0…0` plus sign) exactly when the reference says the value rounds to infinity —
+    and the model's fault flag is `false`: no index into the 800-byte digit buffer is out of range, the write index
+    of `LeftShift` ends at exactly 0 (`LSHIFT_TAB`/`PrefixIsLess` predict the number of new digits exactly), and no
+    loop exceeds its bound. -/
+theorem C04_decimal_correct (txt : List Nat) (t : Token) (ht : scanToken txt = some t)
+    (hg : nativeGuard t (txt.drop t.len) = true) (hexp : (expVal t.exp).natAbs < 100000) :
+    atofNative txt = (specBits t.neg (Rne.round t.neg t.mantissa t.exponent), false) :=
+  Sonic.Proofs.Dec.atofNative_correct txt t ht hg hexp
+
+-- non-vacuity: 47 significant digits just above the tie 2^53+1 (Eisel–Lemire cannot decide it), followed by `,`
+example : (scanToken [57,48,48,55,49,57,57,50,53,52,55,52,48,57,57,51,46,48,48,48,48,48,48,48,48,48,48,48,48,48,48,48,48,
+    48,48,48,48,48,48,48,48,48,48,48,48,48,48,49,44]).any (fun t =>
+      nativeGuard t (List.drop t.len [57,48,48,55,49,57,57,50,53,52,55,52,48,57,57,51,46,48,48,48,48,48,48,48,48,48,48,
+        48,48,48,48,48,48,48,48,48,48,48,48,48,48,48,48,48,48,48,48,49,44]) &&
+      decide ((expVal t.exp).natAbs < 100000) &&
+      (Rne.round t.neg t.mantissa t.exponent == some 4845873199050653697)) = true := by decide +kernel
+example : atofNative [57,48,48,55,49,57,57,50,53,52,55,52,48,57,57,51,46,48,48,48,48,48,48,48,48,48,48,48,48,48,48,48,48,
+    48,48,48,48,48,48,48,48,48,48,48,48,48,48,49,44] = (4845873199050653697, false) := by decide +kernel
+-- overflow: `1e400` gives +inf, the reference says "rounds to infinity"
+example : atofNative [49, 101, 52, 48, 48] = (0x7FF0000000000000, false) ∧ Rne.round false 1 400 = none := by
+  decide +kernel
+
+/-- **The shifts are exact.**  On a well-formed non-zero decimal (`k ≤ 60`), `RightShift(d, k)` / `LeftShift(d, k)`
+    leave a well-formed, trimmed, non-zero decimal whose value is `val d / 2^k` resp. `val d · 2^k` *exactly* with
+    `trunc` unchanged — or, when more than 800 digits would be needed, that value floored to the 800-digit grid
+    `10^(dp-800)` with `trunc` raised (`StepQ`).  In particular no digit index leaves the buffer and
+    `LSHIFT_TAB`/`PrefixIsLess` give the exact number of new digits. -/
+theorem C04_decimal_shift_exact (d : Sonic.Model.BigDecimal.Decimal) (k : Nat) (hwf : WF d) (hpos : 0 < Dnat d)
+    (hk : k ≤ 60) :
+    (WF (rightShift d k) ∧ (rightShift d k).neg = d.neg ∧ 0 < Dnat (rightShift d k) ∧ Trimmed (rightShift d k) ∧
+      StepQ (val d / 2 ^ k) d.trunc (rightShift d k)) ∧
+    (1 ≤ k → WF (leftShift d k) ∧ (leftShift d k).neg = d.neg ∧ 0 < Dnat (leftShift d k) ∧ Trimmed (leftShift d k) ∧
+      StepQ (val d * 2 ^ k) d.trunc (leftShift d k)) :=
+  ⟨Sonic.Proofs.Dec.rightShift_Q d k hwf hpos hk, fun hk1 => Sonic.Proofs.Dec.leftShift_Q d k hwf hpos hk1 hk⟩
+
+/-- **End-to-end for the native path**: whenever `parseNumber` answers through `AtofNative` — with a double, or with
+    `kParseErrorInfinity` — the reference scanner says the same.  Hypotheses (on the buffer only): the token ends at or
+    before `len_` (so the `len_ - pos_ + 1` bytes handed to `AtofNative` contain it; a token only depends on its own
+    bytes: `Proofs.Dec.scanToken_take`), the byte after it satisfies `nativeGuard`, written exponent below 100000. -/
+theorem C04_native_path_correct (buf : List Nat) (len start : Nat) (t : Token)
+    (ht : scanToken (buf.drop start) = some t) (hlen : start + t.len ≤ len)
+    (hg : nativeGuard t ((buf.drop start).drop t.len) = true)
+    (hexp : (expVal t.exp).natAbs < 100000) :
+    (∀ v n, parseNumber buf len start = .ok v n .native → scanNumber buf start = .ok v n) ∧
+    (∀ p, parseNumber buf len start = .err errInfinity p → scanNumber buf start = .infinity p) :=
+  Sonic.Proofs.Dec.native_path_agrees' buf len start t ht hlen hg hexp
+
+-- non-vacuity: the 47-digit number inside a buffer with the sentinel
+example : parseNumber [57,48,48,55,49,57,57,50,53,52,55,52,48,57,57,51,46,48,48,48,48,48,48,48,48,48,48,48,48,48,48,48,
+    48,48,48,48,48,48,48,48,48,48,48,48,48,48,48,49,120,34,120] 48 0
+    = .ok (.real 4845873199050653697) 48 .native := by decide +kernel
+
+/-- **Known finding (guard of `C04_decimal_correct`).**  `AtofNative` receives the rest of the buffer, not the token
+    (`parser.h`: `AtofNative(s + pos_ - 1, len_ - pos_ + 1)`), and `SetDecimal` accepts a second `.` (it re-positions
+    the decimal point).  So a number with a fraction and no exponent that is directly followed by `.` is converted
+    wrongly when the native path is taken: here the token is `9007199254740993.0000000000000000000000000000001`
+    (reference: `2^53 + 2`), but the handler is given the double of `90071992547409930000000000000000000000000000001.5`.
+    Such a document is invalid (the parser reports `kParseErrorInvalidChar` at the `.` right afterwards).
+    When the guard fails, the token has no exponent and is followed by `.` (after a fraction) or by a digit (after a
+    lone `0`, which never reaches the native path). -/
+theorem C04_native_guard_needed :
+    parseNumber [57,48,48,55,49,57,57,50,53,52,55,52,48,57,57,51,46,48,48,48,48,48,48,48,48,48,48,48,48,48,48,48,
+      48,48,48,48,48,48,48,48,48,48,48,48,48,48,48,49,46,53,120,34,120] 50 0
+      = .ok (.real 5309618545612075045) 48 .native ∧
+    scanNumber [57,48,48,55,49,57,57,50,53,52,55,52,48,57,57,51,46,48,48,48,48,48,48,48,48,48,48,48,48,48,48,48,
+      48,48,48,48,48,48,48,48,48,48,48,48,48,48,48,49,46,53,120,34,120] 0
+      = .ok (.real 4845873199050653697) 48 ∧
+    (∀ (t : Token) (rest : List Nat), nativeGuard t rest = false →
+      t.exp = none ∧ ∃ c r, rest = c :: r ∧
+        ((t.fracDigits.isSome = true ∧ c = 46) ∨ (t.fracDigits = none ∧ Sonic.Spec.Number.isDigit c = true))) :=
+  ⟨by decide +kernel, by decide +kernel, Sonic.Proofs.Dec.nativeGuard_false⟩
 
 end Sonic.Props.C04
